@@ -22,7 +22,10 @@ RECURSIVE DChain(_)
 DChain(n) == IF n = 0 THEN VS("x") ELSE VM(("a" :> DChain(n - 1)) @@ ("b" :> VS("x")) @@ ("c" :> VS("<&")))
 RECURSIVE EChain(_)
 EChain(n) == IF n = 0 THEN VS("x") ELSE VM("a" :> VL(<<VM(("b" :> VS("x")) @@ ("a" :> EChain(n - 1))), VM("c" :> VS("x"))>>))
-DeepFam == {DChain(n) : n \in {3, 4, 5, 6, 8, 10}} \cup {EChain(n) : n \in {2, 3, 4, 5}}
+\* the same key at two depths, the DEEPER path being the textually shorter one (names of different widths)
+WidthMaps == {VM(("publications" :> VM("c" :> VS("x"))) @@ ("a" :> VM("b" :> VM("z" :> VM("c" :> VS("x")))))),
+              VM(("publications" :> VL(<<VM("c" :> VS("x")), VM("b" :> VS("x"))>>)) @@ ("a" :> VL(<<VM("b" :> VM("z" :> VL(<<VM("c" :> VS("x"))>>)))>>)))}
+DeepFam == {DChain(n) : n \in {3, 4, 5, 6, 8, 10}} \cup {EChain(n) : n \in {2, 3, 4, 5}} \cup WidthMaps
 SpecDeep == m \in DeepFam /\ b1 = EmptyMap /\ b2 = EmptyMap /\ [][UNCHANGED genvars]_genvars
 cScalars == {VS("x"), VS("<&")}
 cConts == {EmptyMap, EmptyList}
